@@ -69,7 +69,7 @@ func gPow2(name string, maxLog int) int {
 func Verif_C09_Pages(cfg int) {
 	linearAlg := cfg%2 == 1
 	G := []int{16, 1024, 4096}[(cfg/2)%3]
-	B := 4 * G
+	B := 2 * G
 	if G == 16 {
 		B = 256
 	}
@@ -87,6 +87,9 @@ func Verif_C09_Pages(cfg int) {
 	K := 3
 	if verifTier() == 1 {
 		K = 4
+	}
+	if G > 16 || linearAlg {
+		K-- // the large-granularity and linear configurations are an order of magnitude more expensive per step
 	}
 	for step := 0; step < K; step++ {
 		nops := 1
@@ -114,7 +117,12 @@ func Verif_C09_Pages(cfg int) {
 			verifAssume(size >= 1)
 			verifAssume(size <= B+G)
 			align := gPow2("alignLog", int(sh)+1)
-			kind := uint32(1 + verifChoice("kind", 5))
+			// quick: one representative per conflict class (unknown, linear, optimal); thorough: all five kinds
+			kinds := []uint32{uint32(SuballocationUnknown), uint32(SuballocationBuffer), uint32(SuballocationImageOptimal)}
+			if verifTier() == 1 {
+				kinds = []uint32{1, 2, 3, 4, 5}
+			}
+			kind := kinds[verifChoice("kind", len(kinds))]
 			upper := false
 			if linearAlg {
 				upper = verifChoice("upper", 2) == 1
